@@ -18,7 +18,19 @@ CMDS = {
     "nop": None,
 }
 CALLBACK = "stackStatusHandler"  # rx: status uint8
-PRIO = {"getValue": 999, "getConfigurationValue": 0, "sendUnicast": -1, "getEui64": 0, "nop": 999}
+# the property's classes, written down here independently of the code's table: keep-alive and counter reads
+# first, packet-send commands last, everything else in between
+HIGH = ("nop", "getValue", "readCounters", "readAndClearCounters")
+LOW = ("sendUnicast", "sendMulticast", "sendBroadcast")
+ORDINARY = ("getConfigurationValue", "getEui64", "networkState", "getNodeId")
+
+
+class _Prio(dict):
+    def __missing__(self, name):
+        return 999 if name in HIGH else -1 if name in LOW else 0
+
+
+PRIO = _Prio()
 
 
 def tag_of(name, result):
@@ -73,7 +85,7 @@ class World:
         self.e.add_callback(lambda name, args: self.log.append(("CB2", name, tag_of(name, args))))
         self.tasks = {}
         self.names = {}
-        self.ids = {n: self.h.COMMANDS[n][0] for n in list(CMDS) + [CALLBACK, "invalidCommand"]}
+        self.ids = {n: self.h.COMMANDS[n][0] for n in list(CMDS) + [CALLBACK, "invalidCommand"] + list(HIGH + LOW + ORDINARY) if n in self.h.COMMANDS}
         self.events = []
 
     def close(self):
@@ -89,6 +101,8 @@ class World:
 
                 r = await self.h.command(name, t.EmberOutgoingMessageType.OUTGOING_DIRECT, 0x1234, t.EmberApsFrame(profileId=260, clusterId=6, sourceEndpoint=1, destinationEndpoint=1, options=0, groupId=0, sequence=0), 1, b"x")
             else:
+                if args is None:  # any other command: every argument is its type's all-zero value
+                    args = [typ.deserialize(bytes(64))[0] for typ in self.h.COMMANDS[name][1].values()]
                 r = await self.h.command(name, *args)
             self.log.append(("D", c, f"ok{tag_of(name, r)}"))
         except asyncio.TimeoutError:
@@ -405,6 +419,14 @@ def scripts(ctx):
             for name, b in zip(nm, bs):
                 seqs += one(name, b)
             out.append((rng.choice([4, 7, 8, 14]), rng.choice([0, 1, 200, 254, 255]), seqs))
+    # the priority classes, command by command: one ordinary command in flight, then a queue in which the class
+    # under test stands behind (keep-alive / counter read) or in front of (packet send) an ordinary command
+    for version in (4, 5, 7, 8, 9, 13, 14):
+        for special in HIGH + LOW:
+            for other in ORDINARY[:2] if ctx.tier == "quick" else ORDINARY:
+                q = [other, special] if special in HIGH else [special, other]
+                sc = [("call", "getEui64")] + [("call", n) for n in q] + [("sent", True), ("frame", "cur", "ok")] + [("sent", True), ("timeout",)] * 2
+                out.append((version, rng.choice([0, 254]), sc))
     # concurrent callers of mixed priority: queue several, then drive them
     for _ in range(ctx.n(1200, 20000)):
         s = []
